@@ -250,6 +250,16 @@ def run_stack(case, ctx) -> None:
             for i, layer in enumerate(probe_stack):
                 layer.mhsa, layer.mlp = Probe(2 * i + 1), Probe(2 * i + 2)
                 taus += [ref(2 * i, 2 * n), ref(2 * i + 1, 2 * n)]
+            if n % 2 == 0:
+                # history: the stack is cast to a lower-precision dtype and back (module.half() / .to(bfloat16) then .double())
+                # before it is used - the taus are hyper-parameters, not tensors to be rounded with the weights
+                probe_stack = probe_stack.to(torch.bfloat16) if n % 4 == 0 else probe_stack.half()
+                ctx.count("history:stack-cast-to-lower-precision-and-back")
+                for i, layer in enumerate(probe_stack):
+                    if layer.mhsa_tau != taus[2 * i] or layer.mlp_tau != taus[2 * i + 1]:
+                        ctx.violation("C07:stack:taus-changed-by-a-dtype-conversion-of-the-module",
+                                      f"layer {i}: ({layer.mhsa_tau!r}, {layer.mlp_tau!r}) after the cast, rule gives ({taus[2 * i]!r}, {taus[2 * i + 1]!r})", layers=n)
+                        break
             probe_stack = probe_stack.double().eval()
             x = torch.zeros(1, 1, H, dtype=torch.float64)
             x[..., 0] = 1.0
